@@ -27,7 +27,7 @@ MESSAGES = {
     'm': b'\x00\x01\x02\x03\x04\x05\x06\x07',    # around the buffer sizes once framed
     'L': bytes(range(256))[:90],               # larger than both buffers, hardly compressible
 }
-CORRUPTIONS = ('len-1', 'len-min', 'len0', 'len-short', 'len-long', 'len-max', 'flip-first', 'flip-mid', 'flip-last', 'trunc',
+CORRUPTIONS = ('len-1', 'len-neg-tail', 'len-min', 'len0', 'len-short', 'len-long', 'len-max', 'flip-first', 'flip-mid', 'flip-last', 'trunc',
                'pickle-opcode', 'pickle-underflow', 'pickle-odd-setitems', 'pickle-global', 'pickle-empty', 'pickle-nostop')
 # a well-formed frame and a well-formed deflate stream around a byte string that is not a pickle (the different ways the
 # C and the pure-Python unpickler fail: unknown opcode, stack underflow, odd SETITEMS, unknown module, empty, no STOP)
@@ -47,6 +47,10 @@ def corrupt_frame(msg, kind):
     n = len(data)
     if kind == 'len-1':
         return struct.pack('i', -1) + data
+    if kind == 'len-neg-tail':
+        # a negative length that, taken as a slice bound, cuts a well-formed payload out of the buffer once six
+        # more bytes (the start of the next frame) have arrived behind it
+        return struct.pack('i', -10) + data
     if kind == 'len-min':
         return struct.pack('i', -2 ** 31) + data
     if kind == 'len0':
@@ -72,7 +76,7 @@ def corrupt_frame(msg, kind):
 
 
 SLOW_TIMEOUT = 10.0
-DEFINITELY_INVALID = ('len-1', 'len-min', 'len0', 'len-short', 'flip-first', 'flip-mid', 'flip-last') + tuple(sorted(BAD_PICKLES))
+DEFINITELY_INVALID = ('len-1', 'len-neg-tail', 'len-min', 'len0', 'len-short', 'flip-first', 'flip-mid', 'flip-last') + tuple(sorted(BAD_PICKLES))
 
 
 class Rec(object):
@@ -96,6 +100,9 @@ class Rec(object):
             # the owner dials again from inside the callback (as TCPTransport does) and queues its next
             # message at once; it has to reach the peer through the new connection
             w.epoch = 1
+            # something handed to the dead object before the new attempt starts (send() answers False) is not part
+            # of what is sent on the next connection
+            w.A.send('stale: sent while disconnected')
             w.A.connect('10.0.0.2', 2)
             w.fa = w.A.fileno()
             w.established = False
